@@ -17,7 +17,15 @@ ws_head = run(["git", "-C", W + "/repo", "rev-parse", "HEAD"])
 new = run(["git", "-C", "/repo", "rev-list", "--reverse", "HEAD.." + ws_head]).split()
 mapping = {}
 subjects = {run(["git", "-C", "/repo", "log", "-1", "--format=%s", c]): c for c in run(["git", "-C", "/repo", "rev-list", "HEAD"]).split()}
+skips = {}   # --skip=<old>:<existing new>,…  for fixes that another workspace already delivered
+for a in sys.argv:
+    if a.startswith("--skip="):
+        for kv in a[7:].split(","):
+            o, n = kv.split(":"); skips[o] = n
 for c in new:
+    hit = [o for o in skips if c.startswith(o)]
+    if hit:
+        mapping[c] = run(["git", "-C", "/repo", "rev-parse", skips[hit[0]]]); print("skipped (already delivered as %s): %s" % (skips[hit[0]], c[:7])); continue
     subj = run(["git", "-C", "/repo", "log", "-1", "--format=%s", c])
     if subj in subjects:                       # already picked earlier (same subject)
         mapping[c] = subjects[subj]; print("already in /repo:", subj); continue
